@@ -4,6 +4,7 @@ import (
 	"bytes"
 	"errors"
 	"fmt"
+	"math"
 	"sync"
 )
 
@@ -451,13 +452,23 @@ func readInt(n int, b []byte) ([]byte, uint64, error) {
 	nn := uint64(0)
 
 	for i := 1; i < len(b); i++ {
-		if shift := (i - 1) * 7; shift >= 64 {
+		shift := (i - 1) * 7
+		c := uint64(b[i] & 127)
+
+		// The tenth continuation octet only has room for one more bit, and the
+		// prefix is still to be added: anything that does not fit is an error
+		// rather than a value with its top bits missing.
+		if shift >= 64 || c<<shift>>shift != c {
 			return b, 0, ErrIntOverflow
-		} else {
-			nn |= uint64(b[i]&127) << shift
 		}
 
+		nn |= c << shift
+
 		if b[i]&128 != 128 {
+			if nn > math.MaxUint64-uint64(b0) {
+				return b, 0, ErrIntOverflow
+			}
+
 			return b[i+1:], nn + uint64(b0), nil
 		}
 	}
